@@ -281,6 +281,7 @@ AllReturn == <>(\A r \in Req : Final(r))
 
 Trap_WaiterWokenWhileFull == ~(\E r \in Req : pc[r] = "notified" /\ Cardinality(ledger) = Capacity)
 Trap_CancelBetweenCheckAndSet == ~(gpc = "set" /\ fut[gr] = "cancelled")
+Trap_CancelInWindowWhileWaiter == ~(gpc = "set" /\ fut[gr] = "cancelled" /\ \E q \in Req : pc[q] = "waiting")
 Trap_ResultBeforeRecord == ~(\E r \in Req : pc[r] = "put2" /\ r \notin inflight /\ r \notin ledger)
 Trap_TimeoutWhileWaitingForSlot == ~(\E r \in Req : pc[r] = "wtimeout")
 Trap_NotificationSwallowed == ~(\E r \in Req : pc[r] = "waiting" /\ notifq = 0 /\ Cardinality(ledger) < Capacity
